@@ -66,6 +66,8 @@ class Ev:
     self.max_depth = max_depth
     self.facts = []          # notes: in-place mutation, joins, ...
     self.elem_names = set(elem_names)
+    self.alias_attrs = {'value', 'types'}   # state objects wrap one dict / set
+    self.state_classes = set()
 
   # ------------------------------------------------------------ entry
   def run(self, env=None, fn=None, depth=0):
@@ -164,11 +166,16 @@ class Ev:
           return SetV(l.f & ~r.f)
         if isinstance(e.op, ast.BitXor):
           return SetV((l.f & ~r.f) | (r.f & ~l.f))
-      if isinstance(l, SetV) and isinstance(r, Opaque) and isinstance(
-          e.op, (ast.BitOr, ast.BitAnd, ast.Sub)):
-        # user-defined operator on state objects is handled by the caller
-        raise core.AnalysisError('set operator with opaque operand: %s' %
-                                 core.norm(e))
+      if isinstance(e.op, (ast.BitOr, ast.BitAnd, ast.Sub)) and (
+          isinstance(l, SetV) or isinstance(r, SetV)):
+        # an operand this evaluator cannot describe: a set of unknown content
+        lf = l.f if isinstance(l, SetV) else atom('?[%s]' % core.norm(e.left))
+        rf = r.f if isinstance(r, SetV) else atom('?[%s]' % core.norm(e.right))
+        if isinstance(e.op, ast.BitOr):
+          return SetV(lf | rf)
+        if isinstance(e.op, ast.BitAnd):
+          return SetV(lf & rf)
+        return SetV(lf & ~rf)
       return Opaque(core.norm(e))
     if isinstance(e, (ast.Tuple, ast.List, ast.Set)):
       if not e.elts:
@@ -194,9 +201,18 @@ class Ev:
     if isinstance(e, (ast.BoolOp, ast.Compare)) or (
         isinstance(e, ast.UnaryOp) and isinstance(e.op, ast.Not)):
       return BoolV(self.cond(e, env, depth))
+    if isinstance(e, ast.Dict) and not e.keys:
+      return SetV(FALSE)
     if isinstance(e, ast.Subscript):
+      if ('@' + core.norm(e)) in env:
+        return env['@' + core.norm(e)]
       return Opaque(core.norm(e))
     if isinstance(e, ast.Attribute):
+      if e.attr in self.alias_attrs and isinstance(e.value, ast.Name) and \
+          isinstance(env.get(e.value.id), SetV):
+        return env[e.value.id]
+      if ('@' + core.norm(e)) in env:
+        return env['@' + core.norm(e)]
       return Opaque(core.norm(e))
     return Opaque(core.norm(e))
 
@@ -239,6 +255,13 @@ class Ev:
       if isinstance(v, TupleV) and all(isinstance(x, Elem) for x in v.items):
         return Opaque(core.norm(e))
       return v
+    if isinstance(f, ast.Name) and f.id in self.state_classes:
+      if not e.args:
+        return SetV(FALSE)
+      v = self.ev(e.args[0], env, depth)
+      if isinstance(v, SetV):
+        return SetV(v.f)
+      return SetV(atom('?[%s]' % core.norm(e.args[0])))
     if isinstance(f, ast.Name) and f.id in ('all', 'any') and e.args:
       v = self.ev(e.args[0], env, depth)
       if isinstance(v, tuple) and v[0] == 'forall-arg':
@@ -260,7 +283,7 @@ class Ev:
         if isinstance(l, SetV) and isinstance(r, SetV):
           return SetV({'union': l.f | r.f, 'intersection': l.f & r.f,
                        'difference': l.f & ~r.f}[m])
-      if m in ('keys',) and not e.args:
+      if m in ('keys', 'items', 'values') and not e.args:
         return self.ev(base, env, depth)
       if m in ('is_composite', 'is_simple', 'is_symbol') and not e.args:
         b = self.ev(base, env, depth)
@@ -347,10 +370,28 @@ class Ev:
       else:
         for t in target.elts:
           self.assign(t, Opaque(core.norm(t)), env)
+    elif isinstance(target, ast.Subscript) and self._setvar(target.value, env) \
+        is not None and isinstance(self.ev(target.slice, env), Elem):
+      key = self._setvar(target.value, env)
+      cur = env[key]
+      env[key] = SetV(cur.f | self._pc)
+    elif isinstance(target, ast.Attribute) and target.attr in self.alias_attrs \
+        and isinstance(target.value, ast.Name):
+      env[target.value.id] = val
     elif isinstance(target, (ast.Attribute, ast.Subscript)):
       env['@' + core.norm(target)] = val
 
+  def _setvar(self, e, env):
+    """env key of a set-valued variable named by `x` or `x.value`."""
+    if isinstance(e, ast.Name) and isinstance(env.get(e.id), SetV):
+      return e.id
+    if isinstance(e, ast.Attribute) and e.attr in self.alias_attrs and isinstance(
+        e.value, ast.Name) and isinstance(env.get(e.value.id), SetV):
+      return e.value.id
+    return None
+
   def stmt(self, s, env, pc, rets, depth):
+    self._pc = pc
     if isinstance(s, ast.Expr) and isinstance(s.value, ast.Constant):
       return pc
     if isinstance(s, (ast.Pass, ast.Assert, ast.Global, ast.Nonlocal,
@@ -421,7 +462,15 @@ class Ev:
       return p1 | p2
     if isinstance(s, ast.For):
       src = self.ev(s.iter, env, depth)
-      if isinstance(src, SetV) and isinstance(s.target, ast.Name):
+      tgt = s.target
+      if isinstance(tgt, ast.Tuple) and tgt.elts and isinstance(
+          tgt.elts[0], ast.Name) and isinstance(src, SetV):
+        for extra in tgt.elts[1:]:
+          if isinstance(extra, ast.Name):
+            env[extra.id] = Opaque(extra.id)
+        tgt = tgt.elts[0]
+      if isinstance(src, SetV) and isinstance(tgt, ast.Name):
+        s = _ForProxy(s, tgt)
         env2 = env
         saved = env.get(s.target.id)
         env[s.target.id] = Elem(s.target.id)
@@ -441,13 +490,14 @@ class Ev:
         r = hook(self, s, env, pc, rets, depth)
         if r is not NotImplemented:
           return r
-      raise core.AnalysisError('cannot evaluate loop over %s' % core.norm(s.iter))
+      return self.generic_loop(s, env, pc, rets, depth)
     if isinstance(s, ast.Expr) and isinstance(s.value, ast.Call):
       c = s.value
       f = c.func
       if isinstance(f, ast.Attribute) and f.attr in ('append', 'add') and c.args:
         arg = self.ev(c.args[0], env, depth)
-        key = f.value.id if isinstance(f.value, ast.Name) else '@' + core.norm(f.value)
+        key = self._setvar(f.value, env) or (
+            f.value.id if isinstance(f.value, ast.Name) else '@' + core.norm(f.value))
         cur = env.get(key)
         if cur is None:
           cur = self.ev(f.value, env, depth)
@@ -463,7 +513,8 @@ class Ev:
         return pc
       if isinstance(f, ast.Attribute) and f.attr in ('update', 'extend') and c.args:
         arg = self.ev(c.args[0], env, depth)
-        key = f.value.id if isinstance(f.value, ast.Name) else '@' + core.norm(f.value)
+        key = self._setvar(f.value, env) or (
+            f.value.id if isinstance(f.value, ast.Name) else '@' + core.norm(f.value))
         cur = env.get(key)
         if cur is None:
           cur = self.ev(f.value, env, depth)
@@ -471,6 +522,12 @@ class Ev:
           env[key] = SetV(cur.f | (pc & arg.f), True)
           self.facts.append(('inplace', key, 'update'))
           return pc
+        return pc
+      if isinstance(f, ast.Attribute) and f.attr == 'pop' and c.args and \
+          self._setvar(f.value, env) is not None and isinstance(
+              self.ev(c.args[0], env, depth), Elem):
+        key = self._setvar(f.value, env)
+        env[key] = SetV(env[key].f & ~pc, True)
         return pc
       if isinstance(f, ast.Attribute) and f.attr in ('discard', 'remove',
                                                      'difference_update') and c.args:
@@ -495,3 +552,34 @@ class Ev:
 
 def _same(a, b):
   return a.f is b.f
+
+
+class _ForProxy:
+
+  def __init__(self, s, target):
+    self.body = s.body
+    self.iter = s.iter
+    self.target = target
+    self.lineno = s.lineno
+
+
+def _generic_loop(self, s, env, pc, rets, depth):
+  """Loop over something that is not a symbol set (graph neighbours, reaching
+  functions): the body runs for *some* element; additions are guarded by an
+  EXISTS atom; `continue` under a condition restricts the rest of the body."""
+  it = core.norm(s.iter)
+  ex = atom('EXISTS[%s]' % it)
+  if isinstance(s.target, ast.Name):
+    env[s.target.id] = Opaque(s.target.id)
+  has_break = any(isinstance(n, ast.Break) for n in core.walk_no_nested(s))
+  conds = [core.norm(n.test) for n in core.walk_no_nested(s) if isinstance(n, ast.If)]
+  self.facts.append(('loop', it, {'statements': len(s.body), 'break': has_break,
+                                  'conditions': conds}))
+  sub = []
+  self.block(s.body, env, pc & ex, sub, depth)
+  if sub:
+    raise core.AnalysisError('return inside loop over %s' % it)
+  return pc
+
+
+Ev.generic_loop = _generic_loop
